@@ -122,6 +122,38 @@ theorem inv_reconstructs (drop : κ → Bool) (keys : List κ) (p : Nat) (k : κ
   simp only [uniqueSpec, keptZ_fst]
   exact invSpec_getElem? _ p k hk
 
+/-- every `idx` entry is a position of the flattened input -/
+theorem idx_in_range (drop : κ → Bool) (keys : List κ) (i : Nat) (hi : i ∈ (uniqueSpec drop keys).idx) :
+    i < keys.length := by
+  simp only [uniqueSpec, List.mem_filterMap, List.getElem?_map] at hi
+  obtain ⟨a, _, ha⟩ := hi
+  cases hz : (keptZ drop keys)[a]? with
+  | none => rw [hz] at ha; cases ha
+  | some p =>
+    rw [hz] at ha
+    simp only [Option.map_some, Option.some.injEq] at ha
+    have hm : (p.1, p.2) ∈ keptZ drop keys := List.mem_of_getElem? hz
+    have := ((mem_keptZ drop keys p.1 p.2).1 hm).1
+    rw [ha] at this
+    exact (List.getElem?_eq_some_iff.1 this).1
+
+/-- elements and keys: for elements `xs` compared through `key`, the elements selected by `idx` from the
+flattened input have exactly the returned keys — `unique_nodup`, `unique_cover`, `unique_first` and
+`inv_reconstructs` therefore speak about the returned *elements* under the documented equality `key x = key y` -/
+theorem idx_selects_elements {α : Type} (key : α → κ) (drop : κ → Bool) (xs : List α) :
+    ((uniqueSpec drop (xs.map key)).idx.filterMap (fun i => xs[i]?)).map key = (uniqueSpec drop (xs.map key)).out := by
+  apply List.ext_getElem?
+  intro t
+  have hall : ∀ i ∈ (uniqueSpec drop (xs.map key)).idx, (xs[i]?).isSome := by
+    intro i hi
+    have := idx_in_range drop (xs.map key) i hi
+    rw [List.length_map] at this
+    simp [List.getElem?_eq_getElem this]
+  rw [List.getElem?_map, filterMap_getElem?_of_all_some _ _ hall, idx_selects]
+  cases (uniqueSpec drop (xs.map key)).idx[t]? with
+  | none => rfl
+  | some i => simp [List.getElem?_map]
+
 /-- without dropped entries the specification is: first-occurrence positions, the keys there, and the map
 from every position to the output position of its key -/
 theorem uniqueSpec_nodrop (keys : List κ) :
